@@ -86,13 +86,13 @@ Section RunProofs.
   (* ================================================================ Part 6: drops, switches *)
 
   Lemma drop_lines_inv lns : forall st, sr_inv st ->
-    let st' := fold_left (fun st l => sr_set_lr (lr_drop_line bs (s_lr st) l (line_refs st (sl_id l))) st) lns st in
+    let st' := fold_left (fun st l => sr_set_lr (lr_drop_line bs (lr_set_ext (sr_held st []) (s_lr st)) l (line_refs st (sl_id l))) st) lns st in
     sr_inv st' /\ s_syslines st' = s_syslines st /\ s_range st' = s_range st /\ s_on st' = s_on st.
   Proof.
     induction lns as [|l lns IH]; intros st I; cbn [fold_left]; [auto|].
     set (st1 := sr_set_lr _ st).
     assert (I1 : sr_inv st1).
-    { subst st1. apply sr_inv_set_lr; [exact I|]. apply lr_drop_line_inv. apply (si_lr _ _ _ _ I). }
+    { subst st1. apply sr_inv_set_lr; [exact I|]. apply lr_drop_line_inv. apply lr_set_ext_inv. apply (si_lr _ _ _ _ I). }
     destruct (IH st1 I1) as (A & B & C & D). cbv zeta in *. split; [exact A|]. rewrite B, C, D. auto.
   Qed.
 
@@ -453,7 +453,7 @@ Section RunProofs.
         end
     | OS fo, RS r _ => r = Panic \/ obs_find_sysline bs f (smap r) = spec_find_sysline dated f fo
     | ORD _, RR r => r = Panic \/ obs_stream bs f (rmap r) = Some (syslines dated f)
-    | OLE _, RU | OSE _, RU | ODD _, RU | ODS _, RU => True
+    | OLE _, RU | OSE _, RU | ODD _, RU | ODS _, RU | OXD, RU => True
     | _, _ => False
     end.
 
@@ -461,11 +461,17 @@ Section RunProofs.
      the refuted statements in CachesExamples.v.  The sequences of the theorems do not contain it. *)
   Definition op_safe (o : cop) : Prop := match o with OSB _ => False | _ => True end.
 
+  Lemma lr_disable_drop_inv l : lr_inv l -> lr_inv (lr_set_blk (b_disable_drop (l_blk l)) l).
+  Proof.
+    intros [I T]. split; [eapply lr_inv0_maps; [| | |exact I]; reflexivity|].
+    unfold lr_tot in *. cbn. destruct T as [T|(T1 & T2 & T3)]; [left; exact T|right; auto].
+  Qed.
+
   Lemma c_step_ok st o st' x : cinv st -> op_safe o -> c_step dated bs f st o = (st', x) ->
     cinv st' /\ cres_spec o x.
   Proof.
     destruct st as [l s]. intros [IL IS] SAFE. cbn [fst snd] in *. unfold c_step.
-    destruct o as [fo|fo|on|fo|fo|on|bo|fo|plan]; try contradiction.
+    destruct o as [fo|fo|on|fo|fo|on|bo|fo|plan|]; try contradiction.
     - destruct (c_find_line bs f l fo) as [[l' r] p] eqn:C. intro H; injection H as <- <-.
       destruct (c_find_line_ok bs f Hbs _ _ _ _ _ IL C) as [IL' R].
       split; [split; assumption|]. apply lres_ok_obs. exact R.
@@ -492,6 +498,9 @@ Section RunProofs.
       destruct (c_drop_sysline_ok s fo I) as [[_ E]|[_ [E _]]]; cbv zeta in E; cbn [snd]; rewrite E; [apply asc_aremove|]; exact AS.
     - destruct (c_stream dated bs f plan s) as [s' r] eqn:C. intro H; injection H as <- <-.
       destruct (c_stream_ok _ _ _ _ IS C) as (IS' & R & _). split; [split; assumption|exact R].
+    - intro H; injection H as <- <-. split; [|exact Logic.I]. split; [exact IL|].
+      destruct IS as [I AS]. split; [|exact AS].
+      apply sr_inv_set_lr; [exact I|]. apply lr_disable_drop_inv. apply (si_lr _ _ _ _ I).
   Qed.
 
   Fixpoint results_ok (ops : list cop) (xs : list cres) : Prop :=
@@ -604,7 +613,7 @@ Section RunProofs.
     assert (SAFE : op_safe o) by (destruct o; cbn in *; auto).
     destruct (c_step_ok _ _ _ _ I SAFE H) as [I' R]. split; [exact I'|].
     destruct st as [l s]. destruct I as [IL IS]. cbn [fst snd] in *. unfold c_step in H.
-    destruct o as [fo|fo|on|fo|fo|on|bo|fo|plan]; try contradiction.
+    destruct o as [fo|fo|on|fo|fo|on|bo|fo|plan|]; try contradiction.
     - destruct (c_find_line bs f l fo) as [[l' r] p] eqn:C. injection H as <- <-. cbn [snd].
       split; [exact ND|]. cbn in R. split.
       + destruct (c_find_line_total bs f Hbs _ _ _ _ _ IL C) as [NP _]. destruct r; cbn; congruence.
@@ -623,6 +632,7 @@ Section RunProofs.
       destruct (c_stream_ok _ _ _ _ IS C) as (_ & R2 & NP).
       specialize (NP ND). split; [eapply stream_nodrop; eauto|].
       split; [destruct r; cbn; congruence|]. destruct R2 as [R2|R2]; [contradiction|]. cbn. rewrite R2. reflexivity.
+    - injection H as <- <-. cbn [snd]. split; [exact ND|split; reflexivity].
   Qed.
 
   (* without drops the cached machine answers EVERY operation, and what the caller observes is the
